@@ -26,6 +26,7 @@ func c08(c *Ctx) {
 	c08r4(c, pkg)
 	c08asserts(c, pkg)
 	c08embedded(c, pkg)
+	c08funnels(c)
 	if n := c.freshPerIteration("C08.R7", "core/mapping"); n < 2 {
 		c.R.Undecided("C08.R7", "core/mapping#fresh", "per-iteration stores of reflect.New targets are recognised", fmt.Sprintf("%d found", n))
 	}
@@ -996,4 +997,56 @@ func c08embedded(c *Ctx, pkg string) {
 		})
 	}
 	c.R.Min(rule, 2, "processAnonymousStructFieldOptional, readKeys")
+}
+
+// c08funnels: every public decoding entry point funnels into the one validating unmarshaller.
+func c08funnels(c *Ctx) {
+	rule := "C08.R5"
+	target := c.P.Func("core/mapping", "(*Unmarshaler).unmarshalWithFullName")
+	if target == nil {
+		c.R.Undecided(rule, "core/mapping.(*Unmarshaler).unmarshalWithFullName", "anchor resolves", "not found")
+		return
+	}
+	reaches := func(root *ssa.Function) bool {
+		seen := map[*ssa.Function]bool{}
+		stack := []*ssa.Function{root}
+		for len(stack) > 0 {
+			f := stack[len(stack)-1]
+			stack = stack[:len(stack)-1]
+			if f == nil || seen[f] || f.Blocks == nil {
+				continue
+			}
+			seen[f] = true
+			if f == target {
+				return true
+			}
+			for _, a := range f.AnonFuncs {
+				stack = append(stack, a)
+			}
+			for _, b := range f.Blocks {
+				for _, ins := range b.Instrs {
+					if ci, ok := ins.(ssa.CallInstruction); ok {
+						if sc := ci.Common().StaticCallee(); sc != nil {
+							stack = append(stack, sc)
+						}
+					}
+				}
+			}
+		}
+		return false
+	}
+	entries := []struct{ pkg, fn string }{
+		{"rest/httpx", "Parse"}, {"rest/httpx", "ParseForm"}, {"rest/httpx", "ParseHeaders"}, {"rest/httpx", "ParseJsonBody"}, {"rest/httpx", "ParsePath"},
+		{"core/conf", "LoadFromJsonBytes"}, {"core/conf", "LoadFromYamlBytes"}, {"core/conf", "LoadFromTomlBytes"},
+		{"core/mapping", "UnmarshalJsonBytes"}, {"core/mapping", "UnmarshalJsonMap"}, {"core/mapping", "UnmarshalJsonReader"}, {"core/mapping", "UnmarshalKey"},
+		{"core/mapping", "UnmarshalYamlBytes"}, {"core/mapping", "UnmarshalTomlBytes"},
+	}
+	for _, en := range entries {
+		f := c.fn(rule, en.pkg, en.fn)
+		if f == nil {
+			continue
+		}
+		c.R.Check(reaches(f), rule, en.pkg+"."+en.fn, "the entry point decodes through (*Unmarshaler).unmarshalWithFullName — the one place where tags are validated (no second, unvalidated decoding path)", posOf(c, f), "the validating unmarshaller is not reachable from this entry point over static calls", nil, 1)
+	}
+	c.R.Min(rule, 12, "httpx parsers, conf loaders, mapping entry points")
 }
